@@ -23,7 +23,7 @@ import random
 import time
 
 from .. import gen
-from ..c12_common import quiet, flat_obs, diff_obs, fmt_diff, decorate, run_tasks
+from ..c12_common import quiet, flat_obs, diff_obs, fmt_diff, decorate, run_tasks, collect_failures
 from ..oracle_lp import close
 
 KNOWN_KEYS = set()
@@ -470,33 +470,34 @@ def tasks_for(tier, seed):
     return tasks, specs
 
 
+def is_fixed(task):
+    """hand-made and shipped models are the FIXED part (the same for every seed), random models the SEEDED part"""
+    return task["model"][0] != "rnd"
+
+
+def witness(task):
+    return f"{task['model'][0]}:{task['model'][1]}|{task['analysis']}|ctx{int(task['ctx'])}"
+
+
 def execute(tasks, tier="quick", seed=0):
     """run the tasks in the fork pool -> (failures list, number executed, number non-trivial, outcome table)"""
     order = list(range(len(tasks)))
     random.Random(seed).shuffle(order)
     shuffled = [tasks[i] for i in order]
     res = run_tasks(_run_task, shuffled, nproc=16, task_timeout=240 if tier == "quick" else 900)
-    failures, counts = {}, {}
+    items = []
     outcomes = {}
     distinct = 0
     for task, (status, val) in zip(shuffled, res):
         if status != "ok":
-            k = f"{task['analysis'].split(':')[0]}:{status}"
-            counts[k] = counts.get(k, 0) + 1
-            failures.setdefault(k, (f"task {task} ended with {status}: {val}", task))
-            continue
-        _, f, info = val
-        distinct += info["outcome"] != "skipped"
-        o = outcomes.setdefault(task["analysis"].split(":")[0], {"returned": 0, "raised": 0, "skipped": 0})
-        o[info["outcome"]] += 1
-        for k, text in f.items():
-            counts[k] = counts.get(k, 0) + 1
-            cur = failures.get(k)
-            if cur is None or (cur[1]["ctx"] and not task["ctx"]):
-                failures[k] = (text, task)
-    out_f = [{"key": k, "failure": f"{text} [{counts[k]} case(s) with this key]", "replay": dict(task, key=k)}
-             for k, (text, task) in sorted(failures.items())]
-    return out_f, len(res), distinct, outcomes
+            f = {f"{task['analysis'].split(':')[0]}:{status}": f"task {task} ended with {status}: {val}"}
+        else:
+            _, f, info = val
+            distinct += info["outcome"] != "skipped"
+            o = outcomes.setdefault(task["analysis"].split(":")[0], {"returned": 0, "raised": 0, "skipped": 0})
+            o[info["outcome"]] += 1
+        items.append((is_fixed(task), witness(task), task, f))
+    return collect_failures(items), len(res), distinct, outcomes
 
 
 def run(tier="quick", seed=0):
@@ -510,7 +511,9 @@ def run(tier="quick", seed=0):
         "distinct_nontrivial": distinct,
         "rule": "case = (model, analysis with one argument combination, inside/outside a user context); each runs the analysis "
                 "twice; distinct by construction; non-trivial = the case ran to the end (the analysis returned or raised; "
-                "big-M formulations on models with infinite bounds are skipped and not counted)",
+                "big-M formulations on models with infinite bounds are skipped and not counted). Fixed part: hand-made (and, "
+                "thorough, shipped) models - every failing witness reported; seeded part: random models drawn from the seed - "
+                "one entry per class, witness random:<class>",
         "bounds": {"models": len(specs), "hand_made": len(HAND), "random": len(specs) - len(HAND),
                    "analysis_variants": len(get_analyses()), "analyses": len({a.split(':')[0] for a in get_analyses()}),
                    "contexts": 2, "outcomes": outcomes, "seconds": round(time.time() - t0, 1)},
